@@ -361,12 +361,13 @@ theorem readPoison_nonPoison (ps : List PoisonId) (b : Bool) : OpsIn nonPoisonOp
 After a successful guard-API acquisition of shape `S`: whatever the body does and however the
 guard goes away, flags are only set after a panic; and if the body panics (user panic) every
 `Poisonable` inside `S` — the wrapper itself or any member of a collection — ends up poisoned. -/
-theorem guardPhase_poison (C : Ctx) (S : Shape) (ses : Session) (u' : UserSt) (g : PG)
+theorem guardPhase_poison (C : Ctx) (hout : C.outer = false) (S : Shape) (ses : Session) (u' : UserSt) (g : PG)
     (Q : Nat × UserSt → PG → Prop)
     (hQ : ∀ (r : Nat × UserSt) (g' : PG), g.LeP g' →
       (ses.exit = .panic → ∀ p ∈ poisonIds S, g'.flag p = true) → Q r g') :
     wp PoisonSpec (guardPhase C S ses u') Q (fun (_ : Unit) _ => True) g := by
   unfold guardPhase
+  simp only [guardDropN, hout, Bool.false_eq_true, if_false]
   rw [wp_bind]
   refine poison_frame (readPoison_nonPoison _ _) _ _ _ ?_ (fun _ _ _ => trivial)
   intro poisoned g0 hle0
@@ -566,13 +567,13 @@ theorem scopedHeld_poison (C : Ctx) (S : Shape) (ses : Session) (u' : UserSt) (g
     exact hhandler g2 (hg1.transP hle2) hp2
 
 /-- every session obeys the soundness obligation (flags only after a panic) -/
-theorem session_poison (C : Ctx) (ses : Session) (u : UserSt) (g : PG) (Q : Nat × UserSt → PG → Prop)
+theorem session_poison (C : Ctx) (hout : C.outer = false) (ses : Session) (u : UserSt) (g : PG) (Q : Nat × UserSt → PG → Prop)
     (hQ : ∀ r g', g.LeP g' → Q r g') :
     wp PoisonSpec (session C ses u) Q (fun (_ : Unit) _ => True) g := by
   obtain ⟨hacq, htry, _⟩ := lock_nonPoison C.W (C.shape ses.coll)
   have hphase : ∀ u' g1, g.Le g1 →
       wp PoisonSpec (guardPhase C (C.shape ses.coll) ses u') Q (fun (_ : Unit) _ => True) g1 :=
-    fun u' g1 hle => guardPhase_poison C _ ses u' g1 Q (fun r g' h _ => hQ r g' (hle.transP h))
+    fun u' g1 hle => guardPhase_poison C hout _ ses u' g1 Q (fun r g' h _ => hQ r g' (hle.transP h))
   have hheld : ∀ u' g1, g.Le g1 →
       wp PoisonSpec (scopedHeld C (C.shape ses.coll) ses u') Q (fun (_ : Unit) _ => True) g1 :=
     fun u' g1 hle => scopedHeld_poison C _ ses u' g1 Q (fun r g' h _ => hQ r g' (hle.transP h))
@@ -627,7 +628,7 @@ theorem session_poison (C : Ctx) (ses : Session) (u : UserSt) (g : PG) (Q : Nat 
     · exact hscoped
     · exact hscoped
 
-theorem stmt_poison (C : Ctx) (st : Stmt) (u : UserSt) (g : PG) :
+theorem stmt_poison (C : Ctx) (hout : C.outer = false) (st : Stmt) (u : UserSt) (g : PG) :
     wp PoisonSpec (stmt C st u) (fun _ _ => True) (fun (_ : Unit) _ => True) g := by
   have hmark : ∀ (k : Nat) (u' : UserSt) (g' : PG), k ≠ mkUserPanic ∨ True →
       wp PoisonSpec (op (.mark k) fun _ => done u') (fun _ _ => True) (fun (_ : Unit) _ => True) g' :=
@@ -636,7 +637,7 @@ theorem stmt_poison (C : Ctx) (st : Stmt) (u : UserSt) (g : PG) :
   | ses ses =>
     simp only [stmt]
     rw [wp_bind]
-    apply session_poison C ses u g
+    apply session_poison C hout ses u g
     intro r g' _
     exact hmark _ _ _ (Or.inr trivial)
   | get =>
@@ -678,13 +679,13 @@ theorem stmt_poison (C : Ctx) (st : Stmt) (u : UserSt) (g : PG) :
     simp only [stmt]
     exact hmark _ _ _ (Or.inr trivial)
 
-theorem program_poison (C : Ctx) (prog : List Stmt) (u : UserSt) (g : PG) :
+theorem program_poison (C : Ctx) (hout : C.outer = false) (prog : List Stmt) (u : UserSt) (g : PG) :
     wp PoisonSpec (program C prog u) (fun _ _ => True) (fun (_ : Unit) _ => True) g := by
   induction prog generalizing u g with
   | nil => trivial
   | cons st prog ih =>
     simp only [program]
     rw [wp_bind]
-    exact wp_mono PoisonSpec _ (stmt_poison C st u g) (fun u' g' _ => ih u' g') (fun _ _ h => h)
+    exact wp_mono PoisonSpec _ (stmt_poison C hout st u g) (fun u' g' _ => ih u' g') (fun _ _ h => h)
 
 end HLV
